@@ -172,4 +172,30 @@ fn main() {
         m.add_imported_global("env".into(), "ig".into(), DataType::I64, false, false);
         show("S13", &m.encode());
     });
+    run("S16 block-exit probe on an `if` whose then-arm contains a nested block (C19)", || {
+        // expected: the probe (i32.const 77; drop) right before the `else` of the if; a nested block's `end` must not get it
+        let w = wat::parse_str(r#"(module (func (param i32) local.get 0 if block nop end i32.const 1 drop else i32.const 2 drop end))"#).unwrap();
+        let mut m = Module::parse(&w, false).unwrap();
+        {
+            let mut fm = m.functions.get_fn_modifier(FunctionID(0)).unwrap();
+            // instruction 1 is the `if`
+            fm.inject_at(1, InstrumentationMode::BlockExit, wasmparser::Operator::I32Const { value: 77 });
+            fm.inject_at(1, InstrumentationMode::BlockExit, wasmparser::Operator::Drop);
+        }
+        show("S16", &m.encode());
+    });
+    run("S17 semantic-after probes of three branches to the same block (C20)", || {
+        let w = wat::parse_str(r#"(module (func (param i32) block local.get 0 br_if 0 local.get 0 br_if 0 local.get 0 br_if 0 end))"#).unwrap();
+        let mut m = Module::parse(&w, false).unwrap();
+        {
+            let mut fm = m.functions.get_fn_modifier(FunctionID(0)).unwrap();
+            for i in [2usize, 4, 6] {
+                fm.inject_at(i, InstrumentationMode::SemanticAfter, wasmparser::Operator::I32Const { value: 70 + i as i32 });
+                fm.inject_at(i, InstrumentationMode::SemanticAfter, wasmparser::Operator::Drop);
+            }
+        }
+        let bytes = m.encode();
+        println!("validates: {:?}", wasmparser::validate(&bytes).is_ok());
+        show("S17", &bytes);
+    });
 }
